@@ -19,6 +19,15 @@ type Harness struct {
 	PkgDir  string // package directory relative to the repo root
 	PkgName string
 	Src     []byte
+	Subst   [][2]string // (package dir, import path) pairs: that package imports the model instead
+}
+
+var substRE = regexp.MustCompile(`(?m)^//zz:subst\s+(\S+)\s+(\S+)`)
+
+// substModel maps a substituted import path to the model package directory
+// under /verif/harness and its import path inside the repo module.
+var substModel = map[string][2]string{
+	"os": {"zzos", "github.com/regclient/regclient/internal/zzos"},
 }
 
 var pkgDirRE = regexp.MustCompile(`(?m)^//zz:pkg\s+(\S+)`)
@@ -44,7 +53,11 @@ func ReadHarnesses(dir string) ([]Harness, error) {
 		if m == nil || n == nil {
 			return nil, fmt.Errorf("%s: missing //zz:pkg or package clause", e.Name())
 		}
-		hs = append(hs, Harness{File: filepath.Join(dir, e.Name()), PkgDir: string(m[1]), PkgName: string(n[1]), Src: b})
+		h := Harness{File: filepath.Join(dir, e.Name()), PkgDir: string(m[1]), PkgName: string(n[1]), Src: b}
+		for _, sm := range substRE.FindAllSubmatch(b, -1) {
+			h.Subst = append(h.Subst, [2]string{string(sm[1]), string(sm[2])})
+		}
+		hs = append(hs, h)
 	}
 	sort.Slice(hs, func(i, j int) bool { return hs[i].File < hs[j].File })
 	return hs, nil
@@ -85,6 +98,57 @@ func Overlay(repo, verif string, hs []Harness) (map[string][]byte, []string, err
 		}
 	}
 	pats = append(pats, "./internal/zzmodel")
+	// import substitutions: the package's files import the model package
+	// under the original name (regenerated from /repo's current source)
+	done := map[[2]string]bool{}
+	for _, h := range hs {
+		for _, sb := range h.Subst {
+			if done[sb] {
+				continue
+			}
+			done[sb] = true
+			model, ok := substModel[sb[1]]
+			if !ok {
+				return nil, nil, fmt.Errorf("%s: no model for import %q", h.File, sb[1])
+			}
+			mdir := filepath.Join(verif, "harness", model[0])
+			ents, err := os.ReadDir(mdir)
+			if err != nil {
+				return nil, nil, err
+			}
+			for _, e := range ents {
+				if strings.HasSuffix(e.Name(), ".go") {
+					b, err := os.ReadFile(filepath.Join(mdir, e.Name()))
+					if err != nil {
+						return nil, nil, err
+					}
+					ov[filepath.Join(repo, "internal", model[0], e.Name())] = b
+				}
+			}
+			pdir := filepath.Join(repo, sb[0])
+			files, err := os.ReadDir(pdir)
+			if err != nil {
+				return nil, nil, err
+			}
+			single := regexp.MustCompile(`(?m)^import\s+"` + regexp.QuoteMeta(sb[1]) + `"\s*$`)
+			inBlock := regexp.MustCompile(`(?m)^(\s*)"` + regexp.QuoteMeta(sb[1]) + `"\s*$`)
+			alias := filepath.Base(sb[1])
+			for _, f := range files {
+				if !strings.HasSuffix(f.Name(), ".go") || strings.HasSuffix(f.Name(), "_test.go") {
+					continue
+				}
+				src, err := os.ReadFile(filepath.Join(pdir, f.Name()))
+				if err != nil {
+					return nil, nil, err
+				}
+				out := single.ReplaceAll(src, []byte("import "+alias+" \""+model[1]+"\""))
+				out = inBlock.ReplaceAll(out, []byte("${1}"+alias+" \""+model[1]+"\""))
+				if string(out) != string(src) {
+					ov[filepath.Join(pdir, f.Name())] = out
+				}
+			}
+		}
+	}
 	sort.Strings(pats)
 	return ov, pats, nil
 }
